@@ -2,6 +2,7 @@ import H2.Proofs.ClientInter
 import H2.Proofs.ClientWFail
 import H2.Client.Locks
 import H2.Proofs.ClientQueue
+import H2.Proofs.ClientRunOnce
 /-!
 # C12 — every client request resolves exactly once, whatever the server does
 
@@ -246,5 +247,119 @@ example : ∃ s, Reach recheckFixed s ∧ s.wl = .exited ∧ (s.r 0).pc = .waiti
   have r8 := Reach.step r7 (Step.wlTakeAll _ rfl)
   have r9 := Reach.step r8 (Step.wlDrainEnd _ rfl (by intro j; by_cases hj : j = 0 <;> simp [upd, init, res, hj]))
   exact ⟨_, r9, rfl, by simp [upd, init, res]⟩
+
+/-! ## the FULL serial model (`H2.Client.step`, the model the correspondence check compares with `conn.go`): every run
+
+NEEDS `import H2.Proofs.ClientRunOnce` at the top of this file. `run c evs` folds `step` over ANY event list
+(`req`, `bytes`, `timeout`, `read`, `close`, `cut`, `failwrite`; no bound on length or contents) and collects the
+outputs; `Init c` is the connection as the driver creates it (`Drv.handshake`, `handshake_init`). The proofs are in
+`H2/Proofs/ClientRun.lean` (runs, `MapLe`), `ClientRunRel.lean` (one lemma per function of the read loop),
+`ClientRunStep.lean` (the invariant `Inv`, `step_inv`) and `ClientRunOnce.lean`. -/
+
+section FullModel
+open H2.Client
+
+/-- **Full.delivered_at_most_once**: in any run of the full model from a new connection, for every tag, at most one
+output hands a result of the request with that tag to its caller (`readRes (some _)`); no hypothesis on the tags -/
+theorem Full.delivered_at_most_once (c : Conn) (h : Init c) (evs : List Event) (tag : String) :
+    ((run c evs).2.filter (deliveredTo tag)).length ≤ 1 :=
+  deliveries_le_one tag evs c (init_inv h)
+
+/-- **Full.read_again_after_delivery**: if the step after `pre` delivers the result of `tag`, that step is the caller's
+`read tag`, and in whatever follows nothing more is delivered for the tag and every `read tag` answers `readAgain` -/
+theorem Full.read_again_after_delivery (c : Conn) (h : Init c) (pre : List Event) (e : Event) (post : List Event)
+    (tag : String) (hd : deliveredTo tag (step (run c pre).1 e).2 = true) :
+    e = .read tag ∧
+    AllSteps (fun _ ev _ o => deliveredTo tag o = false ∧ (ev = .read tag → o = .readAgain)) (step (run c pre).1 e).1 post := by
+  have hi := run_invariant (init_inv h) pre
+  obtain ⟨he, hr⟩ := deliveredTo_marks _ e tag hd
+  exact ⟨he, H2.Client.read_again_after_delivery tag _ (step_inv _ e hi) hr post⟩
+
+/-- **Full.resolve_never_overwrites**: what `Ctx.resolve` does in the model, exactly: a request that was taken back by
+its caller (`done`) or holds a result (`errBuf`) is returned unchanged; only a request with neither gets the result -/
+theorem Full.resolve_never_overwrites (r : H2.Client.Req) (e : Err) :
+    ((r.done = true ∨ r.errBuf.isSome = true) → r.resolve e = r) ∧
+    ((r.done = false ∧ r.errBuf = none) → r.resolve e = { r with errBuf := some e }) :=
+  Req.resolve_spec r e
+
+/-- **Full.result_kept**: in any run, once the request `tag` holds the result `e`, it holds exactly `e` after any further
+events that are not the caller's own `read tag` (frames, time-outs, write failures, `Close`, loss of the connection,
+other requests), and the caller's `read tag` is then handed `e`: the first result is the one delivered -/
+theorem Full.result_kept (c : Conn) (h : Init c) (pre evs : List Event) (tag : String) (e : Err)
+    (hr : ∃ r, getReq (run c pre).1 tag = some r ∧ r.errBuf = some e) (hno : ∀ ev ∈ evs, isReadOf tag ev = false) :
+    (∃ r', getReq (run (run c pre).1 evs).1 tag = some r' ∧ r'.errBuf = some e) ∧
+    ∃ r', (step (run (run c pre).1 evs).1 (.read tag)).2 = .readRes (some (e, r')) :=
+  ⟨H2.Client.result_kept tag e evs _ (run_invariant (init_inv h) pre) hr hno,
+   first_result_is_delivered tag e evs _ (run_invariant (init_inv h) pre) hr hno⟩
+
+/-- **Full.nothing_stranded**: in every state a run reaches with the connection dead, the request found under any tag
+has a result waiting or was taken back by its caller -/
+theorem Full.nothing_stranded (c : Conn) (h : Init c) (evs : List Event) (hd : (run c evs).1.dead = true) :
+    ∀ t r, getReq (run c evs).1 t = some r → r.done = true ∨ r.errBuf.isSome = true :=
+  dead_all_settled _ (run_invariant (init_inv h) evs) hd
+
+/-- **Full.tags_are_the_req_events**: the requests of the connection are the `req` events of the run, in order (the
+model never marks a connection `stuck`), so distinct tags stay distinct -/
+theorem Full.tags_are_the_req_events (c : Conn) (h : Init c) (evs : List Event) :
+    (run c evs).1.reqs.map (·.tag) = evs.filterMap reqTag := by
+  rw [run_tags evs c (init_inv h), h.reqs]; rfl
+
+/-- **Full.nothing_stranded_unique**: if the tags of the `req` events are distinct, EVERY request of a dead connection
+is resolved -/
+theorem Full.nothing_stranded_unique (c : Conn) (h : Init c) (evs : List Event) (hn : (evs.filterMap reqTag).Nodup)
+    (hd : (run c evs).1.dead = true) : ∀ r ∈ (run c evs).1.reqs, r.done = true ∨ r.errBuf.isSome = true :=
+  dead_all_settled_mem _ (run_invariant (init_inv h) evs) hd (by rw [Full.tags_are_the_req_events c h evs]; exact hn)
+
+/-- **Full.req_on_dead_connection**: a request handed to a connection that has ended is answered `dead` and every request
+with its tag is resolved in that same step -/
+theorem Full.req_on_dead_connection (c : Conn) (h : Init c) (evs : List Event) (r : ReqSpec)
+    (hd : (run c evs).1.dead = true) :
+    (step (run c evs).1 (.req r)).2 = .dead ∧
+    ∀ q ∈ (step (run c evs).1 (.req r)).1.reqs, q.tag = r.tag → q.done = true ∨ q.errBuf.isSome = true :=
+  req_on_dead_settled _ r (run_invariant (init_inv h) evs).stuck hd
+
+/-- **Full.table_streams_distinct**: in every reachable state the stream ids of the table of waiting requests are distinct
+and below `nextID`, and a dead connection's table is empty -/
+theorem Full.table_streams_distinct (c : Conn) (h : Init c) (evs : List Event) :
+    ((run c evs).1.reqQueued.map (·.1)).Nodup ∧ (∀ p ∈ (run c evs).1.reqQueued, p.1 < (run c evs).1.nextID) ∧
+    ((run c evs).1.dead = true → (run c evs).1.reqQueued = []) :=
+  let i := run_invariant (init_inv h) evs
+  ⟨i.keys, i.below, i.deadTable⟩
+
+/-! ### non-vacuity: a request, its response, two reads, `Close`, a late request -/
+
+def fullReq (tag : String) : ReqSpec :=
+  { tag := tag, method := [71, 69, 84], scheme := [104, 116, 116, 112, 115], host := [104], path := [47], ua := [117],
+    hdrs := [], body := .none }
+
+/-- HEADERS on stream 1, END_STREAM | END_HEADERS, `:status 200` -/
+def fullResp : List Nat := [0, 0, 1, 1, 5, 0, 0, 0, 1, 0x88]
+
+def fullRun : List Event := [.req (fullReq "a"), .bytes fullResp, .read "a", .read "a", .req (fullReq "b"), .close, .read "b"]
+
+example : Init ({} : Conn) := init_default
+
+/-- the run delivers exactly one result for "a" (the second `read` answers `readAgain`) and one for "b" -/
+example : ((run {} fullRun).2.filter (deliveredTo "a")).length = 1 ∧ ((run {} fullRun).2.filter (deliveredTo "b")).length = 1 := by
+  decide +kernel
+
+/-- `Full.read_again_after_delivery` is used: the third step delivers -/
+example : deliveredTo "a" (step (run {} (fullRun.take 2)).1 (.read "a")).2 = true := by decide +kernel
+
+/-- `Full.result_kept`: after the response "a" holds `ok`; `Close` and another request do not change it -/
+example : (getReq (run {} (fullRun.take 2)).1 "a").map (·.errBuf) = some (some .ok) := by decide +kernel
+
+/-- `Full.nothing_stranded`: the connection is dead after `close`, "b" was waiting and got `eof` -/
+example : (run {} (fullRun.take 6)).1.dead = true ∧
+    ((run {} (fullRun.take 6)).1.reqs.map fun q => (q.tag, q.done, q.errBuf)) = [("a", true, none), ("b", false, some .eof)] := by
+  decide +kernel
+
+/-- `Full.req_on_dead_connection` -/
+example : (match (step (run {} (fullRun.take 6)).1 (.req (fullReq "c"))).2 with | .dead => true | _ => false) = true := by
+  decide +kernel
+
+example : (fullRun.filterMap reqTag).Nodup := by decide
+
+end FullModel
 
 end H2.Props.C12
